@@ -209,7 +209,7 @@ theorem pass_uniform (h : PState ok j0 jo F0 s) (k : String) (rest : List String
   have hcreate' : syncCreateTasks (passStart s (popQ (s.q.advance s.clock) k rest)) jo jo.job
       (tasksForRefs (passStart s (popQ (s.q.advance s.clock) k rest)) jo jo.job.status.tasks) = (s1, some (rjA, T1)) := by
     rw [h.tasks_eq]; exact hcreate
-  obtain ⟨s', hsync, hto, hex⟩ := sync_simple (passStart s (popQ (s.q.advance s.clock) k rest)) jo s1 rjA T1 hc.spec
+  obtain ⟨s', hsync, hto, hex⟩ := sync_simple (hT1fn := TasksFn.of_nodup hT1nd (fun t ht => (hT1 t ht).1.ok)) (passStart s (popQ (s.q.advance s.clock) k rest)) jo s1 rjA T1 hc.spec
     hcreate' hA (by rw [hcfg1]; rfl) (by rw [hclk1]; rfl)
     (by
       intro pt hpt hpos t ht
